@@ -21,6 +21,14 @@ def respondDisas (ws : List String) : Option String :=
     match readInst i with
     | some inst => some ("ok " ++ hexOfString (disasInst theDTables inst))
     | none => some "bad-request"
+  | ["disasraw", ver, gen, bound, imports, globals, block] =>
+    let list (s : String) : Option (List Inst) := if s == "-" then some [] else (s.splitOn "/").mapM readInst
+    match ver.toNat?, gen.toNat?, bound.toNat?, list imports, list globals, list block with
+    | some v, some g, some b, some is, some gs, some bs =>
+      let fns : List (Function Inst) := if bs.isEmpty then [] else [⟨none, none, [], [⟨none, bs⟩]⟩]
+      let m : Module Inst := ⟨some ⟨Rspirv.Generated.Spirv.const_MAGIC_NUMBER, v, g, b, 0⟩, [], [], is, none, [], [], [], [], [], [], gs, fns⟩
+      some ("ok " ++ hexOfString (disasText theDTables m))
+    | _, _, _, _, _, _ => some "bad-request"
   | ["disasbin", hx] =>
     match unhex hx with
     | none => some "bad-request"
